@@ -52,6 +52,7 @@ def to_gen_format(gen, m):
 
 def go_build(d, what="./..."):
     p = subprocess.run(["go", "build", what], cwd=d, env=lib.GOENV, stdout=subprocess.PIPE, stderr=subprocess.STDOUT, text=True, errors="replace")
+    lib.no_space(p.stdout)
     return p.returncode, p.stdout
 
 
@@ -436,6 +437,7 @@ def run_dependent(scr, verdict, binp, stats):
 
 
 def report_compile(verdict, gen, what, out, m, tag):
+    lib.no_space(out)
     """One violation per failing generated file (keyed by what the file is about, not by its index)."""
     by_file = {}
     for l in out.splitlines():
